@@ -22,7 +22,9 @@ LEVEL = "model_checking"
 
 LIB_DISK = "let v = 1;\n"
 A_DISK = 'let l = import "./lib.ucg";\nlet r = l.v;\n'
-DISK = {"a.ucg": A_DISK, "lib.ucg": LIB_DISK}
+# a library whose definitions sit far below the last line of the documents that import it
+BIG_DISK = "// filler\n" * 20 + "let cfg = {\n    port = 1,\n    host = \"h\",\n};\nlet far = 2;\n"
+DISK = {"a.ucg": A_DISK, "lib.ucg": LIB_DISK, "big.ucg": BIG_DISK}
 
 # Triangles on disk: A imports C and then B, B imports C, and A's diagnostic depends on a shape B
 # derives from C (two import levels). The directory walk order is file-system dependent, so 12
@@ -56,9 +58,11 @@ TEXTS = {
     "uses-missing-field": 'let l = import "./lib.ucg";\nlet r = l.nosuch;\n',
     "no-trailing-newline": "let x = 1;",
     "only-comment": "// nothing here\n",
+    "import-field-chain": 'let b = import "./big.ucg";\nlet t = b.cfg;\nlet v = t.port + b.far;\nlet w = b.cfg.host;\n',
+    "string-with-line-break": 'let s = "one\ntwo\nthree";\nlet e = "a\\n\\n\\nb";\n',
 }
 for _n, _t in list(DISK.items()):
-    if _n not in ("a.ucg", "lib.ucg"):
+    if _n not in ("a.ucg", "lib.ucg", "big.ucg"):
         TEXTS["disk:" + _n] = _t
 CORE = {"a.ucg": ["valid-import", "valid", "syntax-first-line", "type-error", "non-ascii-then-error"],
         "lib.ucg": ["lib-v", "lib-no-v", "lib-syntax-error", "empty", "rich"]}
@@ -247,7 +251,7 @@ def positions_for(text):
         pos.add((i, utf16_len(ln.rstrip("\r"))))
         pos.add((i, utf16_len(ln) + 5))
     n = len(ls)
-    pos.update([(n, 0), (n + 3, 7), (10 ** 6, 10 ** 6)])
+    pos.update([(n, 0), (n + 3, 7), (10 ** 6, 10 ** 6), (2 ** 32 - 1, 0), (0, 2 ** 32 - 1), (2 ** 32 - 1, 2 ** 32 - 1), (2 ** 31, 2 ** 31 - 1)])
     return sorted(pos)
 
 
